@@ -267,6 +267,7 @@ type FuncCtx struct {
 	localsByName map[string][]types.Object
 	curArgExprs []ast.Expr
 	curRecvExpr ast.Expr
+	noName      int
 }
 
 type calleeCtx struct {
